@@ -21,4 +21,12 @@ GenLabels   == {<<"rA", "rB", "rC">>, <<"rD", "rA", "rD">>, <<"rC", "rB", "rA">>
 GenDepKindsQ == {<<"p2wsh", "p2sh", "p2wsh+x">>, <<"p2sh+x", "wrongclass", "unknown">>,
                  <<"p2sh", "p2wsh+x", "badscript">>, <<"unknown", "badscript", "p2sh">>}
 GenLabelsQ   == {<<"rA", "rB", "rC">>, <<"rD", "rA", "rD">>}
+
+\* proposal-resolution scenarios: funding transaction 1 has up to three deposit outputs,
+\* transaction 2 one
+PropOutputs3 == {<<1, 0>>, <<1, 1>>, <<2, 0>>}
+PropOutputs4 == {<<1, 0>>, <<1, 1>>, <<1, 2>>, <<2, 0>>}
+TxStates == { [t \in {1, 2} |-> "ok"],
+              [t \in {1, 2} |-> IF t = 1 THEN "unconfirmed" ELSE "ok"],
+              [t \in {1, 2} |-> IF t = 2 THEN "unknown" ELSE "ok"] }
 =============================================================================
